@@ -6,6 +6,14 @@
 -/
 namespace Mjw
 
+/-- int32 bit operations (Warp `int` is 32-bit two's complement) -/
+def iand (a b : Int) : Int := (BitVec.ofInt 32 a &&& BitVec.ofInt 32 b).toInt
+def ior (a b : Int) : Int := (BitVec.ofInt 32 a ||| BitVec.ofInt 32 b).toInt
+def ixor (a b : Int) : Int := (BitVec.ofInt 32 a ^^^ BitVec.ofInt 32 b).toInt
+def inot (a : Int) : Int := (~~~ BitVec.ofInt 32 a).toInt
+def ishl (a b : Int) : Int := (BitVec.ofInt 32 a <<< b.toNat).toInt
+def ishr (a b : Int) : Int := (BitVec.sshiftRight (BitVec.ofInt 32 a) b.toNat).toInt
+
 class Scalar (K : Type) where
   add : K → K → K
   sub : K → K → K
@@ -48,7 +56,7 @@ def gt (a b : K) : Bool := Scalar.lt b a
 def ge (a b : K) : Bool := Scalar.le b a
 def bne (a b : K) : Bool := !(Scalar.beq a b)
 /-- Warp `wp.clamp(x, a, b) = min(max(x, a), b)` -/
-def clamp (x a b : K) : K := Scalar.min (Scalar.max x a) b
+def clamp (x a b : K) : K := Scalar.min (Scalar.max a x) b
 /-- Warp `wp.sign(x)`: -1 for x < 0, else 1 -/
 def sign (x : K) : K := if Scalar.lt x (Scalar.lit 0 0) then Scalar.lit (-1) 0 else Scalar.lit 1 0
 end Scalar
@@ -71,14 +79,14 @@ instance : Scalar Float where
   le a b := a ≤ b
   beq a b := a == b
   abs := Float.abs
-  min a b := if b < a then b else a
-  max a b := if a < b then b else a
+  min a b := if a.isNaN then b else if b.isNaN then a else if a < b then a else b   -- fminf
+  max a b := if a.isNaN then b else if b.isNaN then a else if a > b then a else b   -- fmaxf
   sqrt := Float.sqrt
   sin := Float.sin
   cos := Float.cos
   tan := Float.tan
-  asin := Float.asin
-  acos := Float.acos
+  asin x := Float.asin (if x < -1 then -1 else if x > 1 then 1 else x)   -- Warp clamps the argument
+  acos x := Float.acos (if x < -1 then -1 else if x > 1 then 1 else x)
   atan2 := Float.atan2
   exp := Float.exp
   log := Float.log
@@ -103,14 +111,14 @@ instance : Scalar Float32 where
   le a b := a ≤ b
   beq a b := a == b
   abs := Float32.abs
-  min a b := if b < a then b else a
-  max a b := if a < b then b else a
+  min a b := if a.isNaN then b else if b.isNaN then a else if a < b then a else b   -- fminf
+  max a b := if a.isNaN then b else if b.isNaN then a else if a > b then a else b   -- fmaxf
   sqrt := Float32.sqrt
   sin := Float32.sin
   cos := Float32.cos
   tan := Float32.tan
-  asin := Float32.asin
-  acos := Float32.acos
+  asin x := Float32.asin (if x < -1 then -1 else if x > 1 then 1 else x)
+  acos x := Float32.acos (if x < -1 then -1 else if x > 1 then 1 else x)
   atan2 := Float32.atan2
   exp := Float32.exp
   log := Float32.log
